@@ -585,7 +585,167 @@ func holds(gs []Guard, w Want) (string, bool) {
 			}
 		}
 	}
+	// value helpers read through: a call of a small local single-result helper is rendered as the
+	// value it returns (the expression before it was moved into the helper)
+	if !inlineValueHelpers {
+		inlineValueHelpers = true
+		for _, g := range gs {
+			p := predOf(g)
+			if implies(p, w) {
+				inlineValueHelpers = false
+				return p.String() + " (value helper read through)", true
+			}
+		}
+		inlineValueHelpers = false
+	}
+	// third reading: the guard tests the result of a local helper against nil; a want that does not
+	// speak about parameters holds here if it holds on every exit of the helper that can produce
+	// such a result (the test moved into the helper with the code it guarded)
+	if helperDepth == 0 {
+		for _, g := range gs {
+			if wit, ok := helperReadThrough(g, w); ok {
+				return wit, true
+			}
+		}
+	}
 	return "", false
+}
+
+var helperDepth int
+
+func helperReadThrough(g Guard, w Want) (string, bool) {
+	cond, pol := stripNot(g.Cond, g.Pol)
+	bo, ok := cond.(*ssa.BinOp)
+	if !ok || g.At == nil {
+		return "", false
+	}
+	// which operand is the helper's result, and which results does the guard select?
+	//   nil-ness:   r == nil  → the exits that can return nil (for an error result: the success exits)
+	//               r != nil  → the exits returning something other than the nil constant
+	//   index form: r >= 0 (r > -1, r != -1, !(r < 0)) → the exits not returning a negative constant
+	var v ssa.Value
+	mode := ""
+	switch {
+	case (bo.Op == token.EQL || bo.Op == token.NEQ) && isNilConst(bo.Y):
+		v = bo.X
+	case (bo.Op == token.EQL || bo.Op == token.NEQ) && isNilConst(bo.X):
+		v = bo.Y
+	}
+	if v != nil {
+		if (bo.Op == token.EQL) == pol {
+			mode = "nil"
+		} else {
+			mode = "nonnil"
+		}
+	} else {
+		p := predOf(g)
+		_, xIsConst := bo.X.(*ssa.Const)
+		_, yIsConst := bo.Y.(*ssa.Const)
+		if xIsConst == yIsConst {
+			return "", false
+		}
+		v = bo.X
+		if xIsConst {
+			v = bo.Y
+		}
+		nonNeg := false
+		switch p.Kind {
+		case "ge":
+			nonNeg = len(p.L.T) == 1 && p.L.K == 0 && p.L.T[render(v)] == 1
+		case "ne":
+			nonNeg = len(p.L.T) == 1 && p.L.K == 1 && p.L.T[render(v)] == 1 // r + 1 != 0
+		}
+		if !nonNeg {
+			return "", false
+		}
+		mode = "index"
+	}
+	idx := 0
+	v = unwrap(v)
+	if ex, isEx := v.(*ssa.Extract); isEx {
+		idx, v = ex.Index, ex.Tuple
+	}
+	call, isCall := v.(*ssa.Call)
+	if !isCall {
+		return "", false
+	}
+	callee := call.Common().StaticCallee()
+	if callee == nil || len(callee.Blocks) == 0 || callee.Pkg == nil || callee.Pkg != g.At.Parent().Pkg || callee == g.At.Parent() {
+		return "", false
+	}
+	var exits []exitAlt
+	switch mode {
+	case "nil":
+		if idx != errResultIndex(callee) {
+			return "", false
+		}
+		exits = successAlts(callee)
+	case "nonnil":
+		for _, e := range exitAlts(callee) {
+			if idx < len(e.Results) && !isNilConst(e.Results[idx]) {
+				exits = append(exits, e)
+			}
+		}
+	case "index":
+		for _, e := range exitAlts(callee) {
+			if idx >= len(e.Results) {
+				return "", false
+			}
+			if k, isK := constInt(e.Results[idx]); isK && k < 0 {
+				continue
+			}
+			exits = append(exits, e)
+		}
+	}
+	if len(exits) == 0 {
+		return "", false
+	}
+	// the helper's guards are read in the caller's vocabulary: its parameters become the arguments
+	sub := map[string]string{}
+	for i, prm := range callee.Params {
+		if i < len(call.Common().Args) {
+			sub[render(prm)] = render(call.Common().Args[i])
+		}
+	}
+	rw := func(t string) string {
+		return paramRefRe.ReplaceAllStringFunc(t, func(m string) string {
+			if v, ok := sub[m]; ok {
+				return v
+			}
+			return m
+		})
+	}
+	helperDepth++
+	defer func() { helperDepth-- }()
+	for _, e := range exits {
+		found := false
+		for _, eg := range e.Guards {
+			for _, inl := range []bool{false, true} {
+				inlineHelpers = inl
+				p := predOf(eg)
+				inlineHelpers = false
+				switch p.Kind {
+				case "ge", "eq", "ne":
+					nt := map[string]int64{}
+					for a, c := range p.L.T {
+						nt[rw(a)] += c
+					}
+					p.L.T = nt
+				case "same":
+					p.A, p.B = sorted2(rw(p.A), rw(p.B))
+				case "bool":
+					p.A = rw(p.A)
+				}
+				if implies(p, w) {
+					found = true
+				}
+			}
+		}
+		if !found {
+			return "", false
+		}
+	}
+	return fmt.Sprintf("every %s exit of %s (%d)", mode, callee.Name(), len(exits)), true
 }
 
 func guardsString(gs []Guard) string {
